@@ -14,6 +14,33 @@ CLAIMS = {
     ),
 }
 
+CLAIMS.update({
+    "C01": dict(
+        technique="custom AST lint over tensorly/base.py: def-use closure of the tensor argument (layout-only), slot-wise AST comparison of forward/inverse pairs, keyword-forwarding check",
+        text="Decides three structural clauses: (LAYOUT-ONLY) in all nine layout functions the tensor reaches every return only through reshape/moveaxis/transpose and sibling layout functions, so no entry can be dropped, duplicated, rounded or re-typed for any shape/dtype; (INVERSE-MIRROR) fold/partial_fold undo exactly the axis move and shape bookkeeping of unfold/partial_unfold; (FORWARD) the vec helpers forward skip_begin/skip_end with mode=0. It does NOT decide that the permutation is the documented one (index arithmetic).",
+        note="Trusted: backend reshape/moveaxis/transpose are bijections on entries and keep the dtype (NumPy semantics).",
+        design="DESIGN.md §3 C01",
+    ),
+    "C02": dict(
+        technique="registry/table agreement, signature agreement between sibling implementations, repository-wide call-binds check over the resolved call graph, flow-sensitive may-dependence analysis (every option influences every return)",
+        text="Decides four structural necessary conditions: the dispatch table and both backends' registrations agree and resolve to functions; core and einsum siblings are call-compatible; every resolved call binds to its callee's signature; every option (weights, mask, skip_matrix, reverse, transpose, skip, modes, n_modes, batched_modes, cp_tensor weights) influences every return path of every operation. It does NOT decide that an einsum equation or reshape chain equals the textbook formula.",
+        note="Trusted: may-dependence is an over-approximation (can miss, cannot over-report); user callables and decorated functions with unknown decorators are skipped.",
+        design="DESIGN.md §3 C02",
+    ),
+    "C03": dict(
+        technique="must-pass-through check on constructor CFGs (branch-consistent path exploration) + delegation-shape lint for views and wrapper methods over resolved callees",
+        text="Decides: every wrapper constructor (CP, Tucker, TT, TR, TT-matrix, PARAFAC2) validates the unmodified operand on every path before storing state and takes shape/rank from the validator; every delegating view and wrapper method hands the unmodified operand and mode to the family's dense reconstruction and wraps it only in layout functions, so those views agree with the dense tensor by construction. It does NOT decide that the reconstructions compute the defining contraction.",
+        note="Trusted: layout functions are pure re-arrangements (C01); validators' individual checks are not examined.",
+        design="DESIGN.md §3 C03",
+    ),
+    "C11": dict(
+        technique="table agreement across the six places that carry the constraint names, keyword-forwarding check at every hop, typestate check on ADMM's returned primal (path exploration), validate-before-work must-pass-through, sign-sanitiser recognition for the non-negativity handler",
+        text="Decides: the 12 constraint names agree (positionally where position is meaning) across validate_constraints' tables, the proximal_operator dispatch and five signatures, each dispatch branch applies its recorded operator; every hop forwards k=k with n_const = tensor order and consistent order/index; the factor returned by ADMM / stored by the driver / produced by the svd and random initialisers is a proximal-operator output; double constraints raise before any work; the non-negativity handler cannot return negatives. It does NOT decide the numeric feasibility of each operator's output.",
+        note="Trusted: the 12-row name->operator table was confirmed by reading and is frozen in the checker; user-supplied initialisations are outside PROX-TYPESTATE.",
+        design="DESIGN.md §3 C11",
+    ),
+})
+
 NA = {
     "C04": "Equality of floating-point tensors across norms, signs, QR and SVD: no structural necessary condition exists that is not a frozen copy of the formula; the one shape-level clause (transforms must not write into their argument) is decided under C15.",
     "C05": "Singular values, orthonormality and optimal truncation error are numerical facts about LAPACK results; no sound static argument bounds them.",
